@@ -34,7 +34,7 @@ def parseFlags (s : String) : Flags :=
   { onError := s.contains 'E', onComplete := s.contains 'C', onZero := s.contains 'Z' }
 
 /-- configuration: from `api` for the aliases (operator_connectable.go:39-46, 197-235) -/
-def parseCfg0 (c : Case) (pre : List (List Ev)) : Option Cfg :=
+def parseCfg (c : Case) (pre : List (List Ev)) : Option Cfg :=
   let api := c.getD "api" "config"
   if api == "config" then
     (parseConn (c.getD "conn" "publish")).map fun conn => { conn := conn, flags := parseFlags (c.getD "flags" "-"), pre := preOf pre }
@@ -45,10 +45,6 @@ def parseCfg0 (c : Case) (pre : List (List Ev)) : Option Cfg :=
   else if api.startsWith "sharereplay" then
     ((api.drop 11).toString.toNat?).map fun n => { conn := .replay n, flags := ⟨true, false, false⟩, pre := preOf pre }
   else none
-
-/-- `fix=1`: the tree under check has the repair of operator_connectable.go:160 applied -/
-def parseCfg (c : Case) (pre : List (List Ev)) : Option Cfg :=
-  (parseCfg0 c pre).map fun cfg => { cfg with fixed := c.getD "fix" "0" == "1" }
 
 def parseEvent (t : String) : Option Event :=
   match t.toList with
@@ -71,7 +67,6 @@ def parseNEvents (s : String) : Option (List NEvent) :=
 
 def renderSErr : SErr → String
   | .user n => "u" ++ toString n
-  | .nilDeref => "oe(nilderef)"
 
 def renderEv : Ev → String
   | .next v => "N" ++ toString v
